@@ -321,7 +321,7 @@ def do_adopt_same(world, child_id, by):
     do_adopt(world, child_id, by, same=True)
 
 
-def do_execute(world, child_id, by, same=False):
+def do_execute(world, child_id, by, same=False, strict_cancel=False):
     child = world.payloads[child_id]
     fn = world.callables.get(child_id) if same else None  # same: every caller hands in the very same callable object
     if child.get("builtin"):
@@ -345,6 +345,8 @@ def do_execute(world, child_id, by, same=False):
         # of the calling payload (a blocking call cannot be interrupted by a genuine cancellation)
         if isinstance(err, (KeyboardInterrupt, SystemExit, GeneratorExit)):
             raise
+        if strict_cancel and type(err).__name__ == "CancelledError":
+            raise  # a caller that does not expect its synchronous call to be cut short: the error is its own failure
         return
     have = child_id in world.returned
     LOG("return", op="execute", pid=child_id, by=by, gen=world.gen, payload_returned=have,
@@ -583,7 +585,7 @@ async def run_async(world, pspec, args, kwargs):
                     # keeps calling into another flavour's runner (op: executed pid, count or None, pause)
                     n = 0
                     while op[2] is None or n < op[2]:
-                        do_execute(world, op[1], by=pid)
+                        do_execute(world, op[1], by=pid, strict_cancel=len(op) > 4 and op[4] == "strict")
                         n += 1
                         await lib.sleep(op[3])
                 elif kind == "shutdown_in_worker":
@@ -636,6 +638,11 @@ async def run_async(world, pspec, args, kwargs):
             if pspec.get("handover"):
                 # a payload that hands its work over to a successor while it is being cancelled
                 do_adopt(world, pspec["handover"], by=pid)
+            if pspec.get("renew") is not None and pspec["renew"] < 3000:
+                # a keep-alive payload: whenever it ends it adopts a fresh copy of itself (a supervisor restarting its worker)
+                clone = dict(pspec, id="%s'%d" % (pid.split("'")[0], pspec["renew"] + 1), renew=pspec["renew"] + 1)
+                world.payloads[clone["id"]] = clone
+                do_adopt(world, clone["id"], by=pid)
             if cleanup["kind"] == "shielded" and flavour == "trio":
                 with trio.CancelScope(shield=True):
                     if cleanup.get("execute_mid"):
@@ -729,6 +736,13 @@ def run_sync(world, pspec, args, kwargs):
                 while time.monotonic() < end:
                     x += 1
                 LOG("block-end", pid=pid, gen=world.gen, how="burn", cpu=time.process_time())
+            elif kind == "exec_loop":
+                # keeps calling into a coroutine flavour's runner (op: executed pid, count or None, pause)
+                n = 0
+                while (op[2] is None or n < op[2]) and not world.release.is_set() and not world.accept_done.is_set():
+                    do_execute(world, op[1], by=pid, strict_cancel=len(op) > 4 and op[4] == "strict")
+                    n += 1
+                    time.sleep(op[3])
             elif kind == "adopt_stream":
                 # a thread payload that keeps handing over short-lived payloads (op: flavour, pause) - also while the runtime
                 # shuts down. adopt() raising here is this payload's failure, as it would be for a user's dispatcher thread
